@@ -64,3 +64,18 @@ func elemOf(t types.Type) types.Type {
 	}
 	return t
 }
+
+// DumpSkeleton prints variants of a template (debugging aid, VDEBUG=tmpl:<id>).
+func DumpSkeleton(c *core.Ctx, id string) {
+	mod := tmpl.Extract(c)
+	xs := expansions(c, 1)
+	for _, t := range mod.Templates {
+		if t.ID != id {
+			continue
+		}
+		for i, v := range xs[t].Variants {
+			println("=== variant", i, v.AtomString())
+			println(v.Src)
+		}
+	}
+}
